@@ -102,7 +102,9 @@ func c15Run(flow string, api bool, redir string, id int) c15Case {
 		last = login("u1", "Login", Desc{K: "pw", U: "u1"})
 	case "passwordform":
 		if api {
-			last = login("u1", "Login", Desc{K: "pw", U: "u1"})
+			// API mode: the value travels in the JSON body only
+			last = r.exec(SymStep{Kind: "req", Req: &SymReq{Browser: "b1", Method: "POST", Route: "Login",
+				Form: []KV{{"email", Desc{K: "pid", U: "u1"}}, {"password", Desc{K: "pw", U: "u1"}}, {"redir", lit(redir)}}}})
 		} else {
 			last = r.exec(SymStep{Kind: "req", Req: &SymReq{Browser: "b1", Method: "POST", Route: "Login",
 				Form: []KV{{"email", Desc{K: "pid", U: "u1"}}, {"password", Desc{K: "pw", U: "u1"}}, {"redir", lit(redir)}}}})
@@ -173,9 +175,6 @@ func init() {
 			for i := *first; i < hi; i++ {
 				for _, flow := range []string{"password", "passwordform", "otp", "totp", "sms", "oauth2", "oauth2x", "totpcarry", "smscarry"} {
 					for _, api := range []bool{false, true} {
-						if flow == "passwordform" && api {
-							continue
-						}
 						id++
 						if err := enc.Encode(c15Run(flow, api, strs[i], id)); err != nil {
 							return err
